@@ -573,7 +573,7 @@ func wireSpec(sent []sentFrame, base int, g refcodec.Frame) string {
 }
 
 func runTamper(c *Ctx) error {
-	c.Res.Rule = "honest AES-GCM transcripts (1–4 messages, single/multi-frame, either direction, with/without cleartext prelude) × single faults (every bit of the byte stream for the short transcripts; every frame dropped/duplicated/swapped/replayed/shortened/cut; IV stripped or shifted; forged frames of length 0,1,15,16,17,40 with either flag at every position; end-flag flips) + random 2–3-fault combinations; + reflection (the receiving endpoint's own protected frames fed back to it at any position, IV kept / stripped / the first frame's IV put in front, with no, different and byte-identical cleartext exchanged each way before the key); + transcripts whose nonce word passes 2^32 (streams restored from a crypto-state blob) with every frame dropped/duplicated/swapped/replayed; every fault presented to EVERY receive path (ReceiveCompleteMessage, Message.GetRemainingBytes, StartMessageRead/ReadMessageBytes/EndMessageRead, ReceiveFrame, GetSecret), end flags 0..10 and invalid ones rewritten/forged, transcripts of secrets (PutSecret/GetSecret with encryption switched off around them); the harness is the on-path editor between two real keyed streams; distinct by (transcript, fault list); non-trivial = the tampered byte stream differs from the honest one"
+	c.Res.Rule = "honest AES-GCM transcripts (1–4 messages, single/multi-frame, either direction, with/without cleartext prelude) × single faults (every bit of the byte stream for the short transcripts; every frame dropped/duplicated/swapped/replayed/shortened/cut; IV stripped or shifted; forged frames of length 0,1,15,16,17,40 with either flag at every position; end-flag flips) + random 2–3-fault combinations; + reflection (the receiving endpoint's own protected frames fed back to it at any position, IV kept / stripped / the first frame's IV put in front, with no, different and byte-identical cleartext exchanged each way before the key); + transcripts whose nonce word passes 2^32 (streams restored from a crypto-state blob) with every frame dropped/duplicated/swapped/replayed; every fault presented to EVERY receive path (ReceiveCompleteMessage, Message.GetRemainingBytes, StartMessageRead/ReadMessageBytes/EndMessageRead, ReceiveFrame, GetSecret), end flags 0..10 and invalid ones rewritten/forged, transcripts of secrets (PutSecret/GetSecret with encryption switched off around them); + honest transcripts with NO fault whose payload is at the size limit of a protected frame (every size MaxMessageSize-40 .. MaxMessageSize+1, as the first IV-bearing frame of a direction and as a later one, through SendMessage / SendPartialMessage / WriteMessage+EndMessage / WriteFrame / the typed layer / PutSecret, position-dependent content, followed by another message, read through every message-level receive API and compared byte for byte); the harness is the on-path editor between two real keyed streams; distinct by (transcript, fault list); non-trivial = the tampered byte stream differs from the honest one"
 	var cases []Case
 	nT := c.Pick(3, 10)
 	nS := c.Pick(1, 3) // transcripts of secrets (PutSecret with encryption switched off around them)
@@ -698,6 +698,33 @@ func runTamper(c *Ctx) error {
 			for _, fs := range fl {
 				cases = append(cases, tamperRun(c, sp, fs, true, "recvc").cs)
 				c.Count("wrap-iv")
+			}
+		}
+	}
+	// no attacker at all: honest transcripts whose frames are as large as a protected frame can be.
+	// Every payload size from MaxMessageSize-40 to MaxMessageSize+1 (the band in which tag and IV push
+	// the wire form over the receiver's bound), as the FIRST protected frame of the direction (IV on
+	// board) and as a later one, through every sending API, read through every message-level receive API
+	{
+		apis := tamperNearMaxSendAPIs
+		k := 0
+		for d := -40; d <= 1; d++ {
+			for later := 0; later < 2; later++ {
+				for ai, sa := range apis {
+					k++
+					if !c.Thorough() {
+						// quick: the edges of the two bands exactly, every API at each; the rest of the band rotates
+						edge := d == -33 || d == -32 || d == -31 || d == -17 || d == -16 || d == -15 || d == 0
+						if edge {
+							if (d+40+later+ai+int(c.Seed))%2 != 0 && sa != "send1" {
+								continue
+							}
+						} else if (k+int(c.Seed))%5 != 0 {
+							continue
+						}
+					}
+					cases = append(cases, tamperNearMax(c, MiB+d, later == 1, sa, tamperAPIs[k%3], k%4 != 0))
+				}
 			}
 		}
 	}
@@ -834,6 +861,160 @@ func reflectRun(c *Ctx, idx int) Case {
 	c.Distinct(fmt.Sprintf("reflect|%d|%d|%d|%d|%s|%d", prelude, nOwn, nA, j, variant, k), true)
 	_ = ownMsgs
 	return Case{Label: fmt.Sprintf("reflect#%d", idx), Ops: w.ops, Real: w.real}
+}
+
+// the ways an application puts one near-maximal payload on the wire: SendMessage; SendPartialMessage
+// then a short final frame; the buffered writer (one WriteMessage flushes it as a partial frame,
+// EndMessage closes the message); Stream.WriteFrame with and without end-of-message (what the typed
+// layer calls); the typed layer itself (Message.PutBytes + FinishMessage, which cuts frames that just
+// fit a protected frame); PutSecret
+var tamperNearMaxSendAPIs = []string{"send1", "send0", "write", "wframe1", "wframe0", "typed", "secret"}
+
+// tamperNearMax: C02's first sentence with NO on-path party — "everything the receiver hands to the
+// application is an exact in-order prefix of what the sender's application sent, with message boundaries
+// intact" — on payloads at the size limit of a protected frame. Whatever the sender ACCEPTED must arrive
+// byte for byte (position-dependent content), followed by the next message, and nothing else.
+func tamperNearMax(c *Ctx, size int, later bool, sendAPI, recvAPI string, dirAB bool) Case {
+	w := newWorld()
+	from, to := "A", "B"
+	if !dirAB {
+		from, to = "B", "A"
+	}
+	if c.Rng.Intn(2) == 0 {
+		_ = w.send("A", 1, []byte("hello"))
+		_, _, _ = w.recvf("B")
+		_ = w.send("B", 1, []byte("world!"))
+		_, _, _ = w.recvf("A")
+	}
+	w.key("A", 9)
+	w.key("B", 9)
+	if sendAPI == "secret" {
+		recvAPI = "getsecret"
+	}
+	var expect [][]byte
+	if later {
+		m := randBytes(c, 1+c.Rng.Intn(9))
+		m[len(m)-1] |= 1 // (GetSecret strips one trailing NUL)
+		if w.send(from, 1, m) == nil {
+			expect = append(expect, m)
+		}
+	}
+	seed := c.Rng.Intn(1 << 20)
+	msg := patBytes(seed, 0, size)
+	whole := msg
+	w.pat = &patState{seed: seed, msg: msg}
+	accepted, panicked := false, false
+	func() {
+		defer func() {
+			if p := recover(); p != nil {
+				w.dead, panicked = true, true
+				c.Violate(Violation{Property: "C02", Key: "C02:honest-nearmax:sender-panic:" + sendAPI, What: "the sender panicked on an honest payload near the frame size limit; nothing of it can be delivered as sent",
+					Ops: append(append([]string{}, w.ops...), fmt.Sprintf("# then: %s of %d bytes", sendAPI, size)), Expected: "the payload is sent as it is, or refused with an error", Observed: fmt.Sprint("panic: ", p)})
+			}
+		}()
+		switch sendAPI {
+		case "send1":
+			accepted = w.send(from, 1, msg) == nil
+		case "send0":
+			tail := randBytes(c, 1+c.Rng.Intn(5))
+			if w.send(from, 0, msg) == nil {
+				accepted = w.send(from, 1, tail) == nil
+				whole = append(append([]byte{}, msg...), tail...)
+			}
+		case "write":
+			w.start(from)
+			if w.write(from, msg) == nil {
+				accepted = w.end(from) == nil
+			}
+		case "wframe1":
+			accepted = w.writeFrame(from, msg, true) == nil
+		case "wframe0":
+			tail := randBytes(c, c.Rng.Intn(5))
+			if w.writeFrame(from, msg, false) == nil {
+				accepted = w.writeFrame(from, tail, true) == nil
+				whole = append(append([]byte{}, msg...), tail...)
+			}
+		case "typed":
+			accepted = w.typedBytes(from, msg) == nil
+		case "secret":
+			// a secret is a string: constant text, size counts the NUL PutSecret appends
+			w.pat = nil
+			sec := fillBytes(size-1, byte(0x41+c.Rng.Intn(20)))
+			accepted = w.secret(from, sec) == nil
+			whole = sec
+		}
+	}()
+	w.pat = nil
+	if accepted {
+		expect = append(expect, whole)
+	}
+	c.Count("nearmax:" + sendAPI + ":accepted=" + b01(accepted) + ":later=" + b01(later))
+	// the next message: a lost boundary or missing bytes of the big one would show here at the latest
+	if !w.dead {
+		m := randBytes(c, 1+c.Rng.Intn(9))
+		m[len(m)-1] |= 1
+		if w.send(from, 1, m) == nil {
+			expect = append(expect, m)
+		}
+	}
+	var delivered [][]byte
+	for i := 0; i < len(expect)+2 && !w.dead; i++ {
+		var m []byte
+		var err error
+		switch recvAPI {
+		case "mrest":
+			m, err = w.mrest(to)
+		case "getsecret":
+			m, err = w.getsecret(to)
+		case "incr":
+			err = w.startread(to)
+			for err == nil {
+				var d []byte
+				d, err = w.read(to, 200000+c.Rng.Intn(300000))
+				m = append(m, d...)
+				if isEOM(err) {
+					err = w.endread(to)
+					break
+				}
+			}
+		default:
+			m, err = w.recvc(to)
+		}
+		if err != nil {
+			break
+		}
+		delivered = append(delivered, m)
+	}
+	bad, obs := "", ""
+	for i := range delivered {
+		if i >= len(expect) {
+			bad, obs = "extra", fmt.Sprintf("%d messages delivered, %d sent", len(delivered), len(expect))
+			break
+		}
+		if !bytes.Equal(delivered[i], expect[i]) {
+			bad = "altered"
+			obs = fmt.Sprintf("message %d: %d bytes delivered, %d sent", i, len(delivered[i]), len(expect[i]))
+			for j := 0; j < len(delivered[i]) && j < len(expect[i]); j++ {
+				if delivered[i][j] != expect[i][j] {
+					obs += fmt.Sprintf("; first difference at offset %d", j)
+					break
+				}
+			}
+			break
+		}
+	}
+	if bad == "" && len(delivered) < len(expect) && !panicked {
+		bad, obs = "honest", fmt.Sprintf("only %d of %d messages of an untouched transcript were delivered", len(delivered), len(expect))
+	}
+	if bad != "" {
+		c.Violate(Violation{Property: "C02", Key: "C02:honest-nearmax:" + sendAPI + ":" + recvAPI + ":" + bad,
+			What: "with no on-path party at all, what the receiver handed over is not what the sender's application sent (payload at the size limit of a protected frame)",
+			Ops:  append([]string{}, w.ops...), Expected: fmt.Sprintf("%d messages, byte for byte", len(expect)), Observed: obs})
+	}
+	w.finish()
+	c.Distinct(fmt.Sprintf("nearmax|%d|%v|%s|%s|%v", size, later, sendAPI, recvAPI, dirAB), true)
+	c.Count("api:" + recvAPI)
+	return Case{Label: fmt.Sprintf("nearmax size=%d later=%v send=%s recv=%s", size, later, sendAPI, recvAPI), Ops: w.ops, Real: w.real}
 }
 
 type tamperSpec struct {
